@@ -147,6 +147,60 @@ static json run_job(const json& job)
         }
         out["queries"] = arr;
     }
+    // C03: print -> re-parse round trips of expressions (in the document's global scope) and of queries
+    if (job.contains("roundtrip")) {
+        json arr = json::array();
+        std::unique_ptr<TigaPropertyBuilder> tiga;
+        for (auto& rj : job["roundtrip"]) {
+            json r;
+            const std::string text = rj["text"];
+            const bool is_query = rj.value("query", false);
+            r["text"] = text;
+            auto parse_one = [&](const std::string& src, expression_t& out, json& info) -> bool {
+                doc->clear_errors();   // PropertyBuilder::property() drops the property when the document holds any error
+                size_t nerr = 0;
+                bool ok = true;
+                try {
+                    if (is_query) {
+                        // strategy names declared by earlier items of the job stay visible through `strategies`
+                        if (!tiga) tiga = std::make_unique<TigaPropertyBuilder>(*doc);
+                        size_t before = tiga->getProperties().size();
+                        int rc = parseProperty(src.c_str(), tiga.get());
+                        info["ret"] = rc;
+                        if (tiga->getProperties().size() != before + 1) { info["nprops"] = tiga->getProperties().size() - before; ok = false; }
+                        else out = tiga->getProperties().back().intermediate;
+                    } else {
+                        ExpressionBuilder eb{*doc};
+                        int rc = parse_XTA(src.c_str(), &eb, newxta, part_of(rj.value("part", "S_EXPRESSION")), "");
+                        info["ret"] = rc;
+                        if (eb.getExpressions().size() != 1) { info["nfrag"] = eb.getExpressions().size(); ok = false; }
+                        else {
+                            out = eb.getExpressions()[0];
+                            if (nerr == doc->get_errors().size() && !out.empty()) { TypeChecker tc{*doc}; tc.checkExpression(out); }
+                        }
+                    }
+                } catch (const std::exception& e) { info["threw"] = demangle(typeid(e).name()); info["what"] = e.what(); ok = false; }
+                json errs = json::array();
+                for (size_t i = nerr; i < doc->get_errors().size(); ++i) errs.push_back(doc->get_errors()[i].msg);
+                info["errors"] = errs;
+                return ok && errs.empty() && !out.empty();
+            };
+            expression_t e1, e2;
+            json i1, i2;
+            if (!parse_one(text, e1, i1)) { r["status"] = "not-accepted"; r["first"] = i1; arr.push_back(r); continue; }
+            std::string s1;
+            try { s1 = e1.str(); } catch (const std::exception& e) { r["status"] = "str-threw"; r["what"] = std::string(demangle(typeid(e).name())) + ": " + e.what(); r["t1"] = vh::expr_tree(e1, doc.get(), false); arr.push_back(r); continue; }
+            r["s1"] = s1;
+            r["t1"] = vh::expr_tree(e1, nullptr, false);
+            if (!parse_one(s1, e2, i2)) { r["status"] = "reparse-failed"; r["second"] = i2; arr.push_back(r); continue; }
+            r["t2"] = vh::expr_tree(e2, nullptr, false);
+            r["equal"] = e1.equal(e2);
+            try { r["s2"] = e2.str(); } catch (const std::exception& e) { r["s2"] = nullptr; }
+            r["status"] = "ok";
+            arr.push_back(r);
+        }
+        out["roundtrip"] = arr;
+    }
     if (job.contains("write_xml")) {
         out["write"] = guarded([&](json& r) { r["ret"] = write_XML_file(job["write_xml"].get<std::string>().c_str(), doc.get()); });
     }
